@@ -2,6 +2,7 @@ package main
 
 import (
 	"fmt"
+	"os"
 	"go/ast"
 	"go/constant"
 	"go/token"
@@ -318,6 +319,13 @@ func (x *Exec) finish(st *State, end string) {
 		return
 	}
 	x.results = append(x.results, &PathResult{PC: st.pc, Obls: st.obls, End: end, Notes: st.notes, Trace: strings.Join(st.trace, " ")})
+	if os.Getenv("HVC_PATHS") != "" {
+		var evs []string
+		for _, e := range st.events {
+			evs = append(evs, e.Kind)
+		}
+		fmt.Fprintf(os.Stderr, "path end=%s trace=%s events=%v\n", end, strings.Join(st.trace, " "), evs)
+	}
 }
 
 func (x *Exec) runAll() {
